@@ -131,6 +131,7 @@ static void count_case (vf_rng *r)
 {
     pixman_format_code_t f = pick_alpha (r); int n = depth_of (f);
     int w = (int)vf_range (r, 1, 40), h = (int)vf_range (r, 1, 12);
+    if (vf_chance (r, 1, 8)) { w = (int)vf_range (r, 140, 420); h = (int)vf_range (r, 1, 4); vf_count ("wide_images", 1); }      /* spans of many whole words / vector blocks */
     vf_buf B; if (!vf_buf_alloc (&B, f, w, h, (int)(vf_next (r) % 2), 0, vf_default_place (r))) return;
     int prefilled = vf_chance (r, 1, 3);
     if (prefilled) vf_buf_fill_random (&B, r); else memset (B.base, 0, B.bytes);
@@ -168,6 +169,7 @@ static void meta_case (vf_rng *r)
 {
     pixman_format_code_t f = pick_alpha (r);
     int w = (int)vf_range (r, 1, 40), h = (int)vf_range (r, 1, 12), mode = (int)(vf_next (r) % 5);
+    if (vf_chance (r, 1, 8)) { w = (int)vf_range (r, 140, 420); h = (int)vf_range (r, 1, 4); vf_count ("wide_images", 1); }
     vf_buf A, B; if (!vf_buf_alloc (&A, f, w, h, 0, 0, vf_default_place (r))) return; if (!vf_buf_alloc (&B, f, w, h, 0, 0, vf_default_place (r))) { vf_buf_free (&A); return; }
     if (vf_chance (r, 1, 4)) { vf_buf_fill_random (&A, r); memcpy (B.base, A.base, A.bytes); } else { memset (A.base, 0, A.bytes); memset (B.base, 0, B.bytes); }
     pixman_image_t *ia = vf_buf_image (&A), *ib = vf_buf_image (&B);
